@@ -34,7 +34,10 @@ class CycleNode(Node):
         super().__init__(token)
         self.name = name
         self.items = tuple(items)
-        self.cycle_hash = hash((self.name, self.items))
+        # Iterators are identified by their name and items, compared by equality. A
+        # bare hash conflates distinct items that happen to hash alike, like -1 and
+        # -2, or 1 and true.
+        self.cycle_hash = (self.name, self.items)
         self.blank = False
 
     def __str__(self) -> str:
